@@ -67,6 +67,7 @@ class Ctx:
         self.assumptions: List[str] = []
         self.notes: List[str] = []
         self.floors: Dict[str, List[int]] = {}
+        self.deferred_floors: set = set()
         self.extra: Dict[str, Any] = {}
 
     # -------------------------------------------------------------- engines
@@ -117,11 +118,15 @@ class Ctx:
             self.findings.append(Finding(rule, fq, construct, why, where, details))
         return ok
 
-    def floor(self, rule: str, got: int, want: int) -> None:
-        """Vacuity floor: the rule must have matched at least `want` instances."""
+    def floor(self, rule: str, got: int, want: int, defer: bool = False) -> None:
+        """Vacuity floor: the rule must have matched at least `want` instances.  A missed floor ends the run as
+        ANALYSIS-ERROR at once; with defer=True it is judged in finish(), where a violation found by a LATER rule
+        about the same construct (the edit that removed the instance) is the more specific report."""
         self.floors[rule] = [got, want]
-        # judged in finish(): a missed floor is an ANALYSIS-ERROR unless the run also found a violation (which
-        # usually explains it - the violating edit removed the instance - and is the more specific report)
+        if got < want and not defer:
+            raise AnalysisError(f"rule {rule} matched {got} instance(s), below the floor of {want} confirmed by hand")
+        if defer:
+            self.deferred_floors.add(rule)
 
     def expect_locals(self, fn: ast.AST, names) -> None:
         """The rule about to run identifies statements through these local variable names.  If one of them no
@@ -151,7 +156,7 @@ class Ctx:
                 continue
             seen_keys.add(f.key)
             (listed if f.key in known_keys else new).append(f)
-        missed = [f"rule {r} matched {g} instance(s), below the floor of {w} confirmed by hand" for r, (g, w) in sorted(self.floors.items()) if g < w]
+        missed = [f"rule {r} matched {g} instance(s), below the floor of {w} confirmed by hand" for r, (g, w) in sorted(self.floors.items()) if g < w and r in self.deferred_floors]
         if missed and not new:
             raise AnalysisError("; ".join(missed))
         for m in missed:
